@@ -1,29 +1,57 @@
 """C16 -- array/pointer indexing, slicing and arithmetic follow the C model.
 
-Shape: history + byte model.  The array under test is either an owned
-ffi.new('T[n]') (ASan red zones directly behind it) or a view in the middle of
-a larger malloc'ed block (wrongly accepted accesses show as changes of the
-neighbouring bytes).  After every operation the whole backing store is
-compared with a bytearray model.
+Shape: history + byte model.  The array under test is created in one of five
+ways (MODES): an owned ffi.new('T[n]') or ffi.new('T[]', n) (ASan red zones
+directly behind it), a fixed-length view cast into the middle of a larger
+malloc'ed block, a slice view x[pre:pre+n] of a larger owned array, or a
+from_buffer('T[]') array over the middle of a bytearray (wrongly accepted
+accesses show as changes of the neighbouring bytes).  After every operation
+the whole backing store is compared with a bytearray model.  addressof /
+offsetof go through both FFI implementations (cffi.api.FFI -> typeoffsetof +
+rawaddressof, and _cffi_backend.FFI -> ffi_obj.c).
 """
 import sys, os, struct
 from vlib import gen, core
 
 MEMCHECK_SAMPLE = 4
 RULE = ("case = one history of 60 random operations (index read/write with i in -n-2..n+2 and "
-        "huge values, slices with/without step and missing bounds, writes through slices, slice "
-        "assignment from list/tuple/bytes/array cdata/generator of right and wrong length, pointer "
-        "+/-, (p+i)[j], p-q, addressof(x,i), offsetof('T[]',i), owning-pointer indexes) over one "
-        "array of a random element kind (8 integer kinds, float, double, void*, struct, nested "
-        "array) and length 0..12; distinct = distinct (element kind, n, op, arguments) tuples; "
-        "non-trivial = operation other than an in-range read")
+        "huge values, given as int or int subclass; slices with/without step and missing bounds, "
+        "writes through slices; operations on derived views (slice of the array or of a pointer "
+        "into it: index, write, sub-slice, slice assignment, arithmetic, addressof relative to "
+        "the view); slices of plain pointers (also negative start, reversed, step, missing "
+        "bound); slice assignment from list/tuple/bytes/generator/array cdata of fixed or "
+        "variable length type/slice cdata/overlapping slice of the array itself, of right and "
+        "wrong length, with an unconvertible item or a raising iterator; pointer +/- in the forms "
+        "p+i, i+p, x+i, i+x, p-i; p-q, ptr-array; void*/char* arithmetic; (p+i)[j]; "
+        "addressof(x,i[,k|field[,k]]) and offsetof('T[]',i[,...]) through cffi.api.FFI and "
+        "_cffi_backend.FFI; owning-pointer indexes incl. new_allocator) over one array of a random "
+        "element kind (8 integer kinds, float, double, void*, struct*, structs of size 3/4/6/12, "
+        "nested arrays of size 3/4/12) created in one of 5 ways (own fixed, own variable-length, "
+        "cast view, slice view, from_buffer) and length 0..12; distinct = distinct (element kind, "
+        "n, creation mode, op, arguments) tuples; non-trivial = operation other than an in-range "
+        "read")
 ASSUMPTIONS = ["offsets are bounded so that i*sizeof(T) stays below 2**62 (beyond that C itself is undefined)",
-               "non-integer keys are not generated; slices of a plain pointer are unbounded by design (C semantics)"]
+               "non-integer keys are not generated; slices of a plain pointer are unbounded by design (C "
+               "semantics): for them only 'start <= stop, both given, no step, else not accepted' and the view "
+               "semantics are demanded, and only inside the backing store",
+               "void* arithmetic: only (vp+i)-vp == i is demanded (the statement gives no element size for void)"]
 
 KINDS = [('char', 'c'), ('signed char', 'b'), ('unsigned char', 'B'), ('short', 'h'), ('unsigned short', 'H'),
          ('int', 'i'), ('unsigned int', 'I'), ('long', 'q'), ('unsigned long long', 'Q'),
-         ('float', 'f'), ('double', 'd'), ('void *', 'Q'), ('struct sp', None), ('short[2]', None)]
-CDEF = "struct sp { short a; char b; };"
+         ('float', 'f'), ('double', 'd'), ('void *', 'Q'), ('struct sp', None), ('short[2]', None),
+         # element sizes that are not a power of two, and a typed pointer
+         ('struct s3', None), ('struct s6', None), ('struct s12', None), ('char[3]', None),
+         ('int[3]', None), ('struct sp *', 'Q')]
+CDEF = ("struct sp { short a; char b; }; struct s3 { char a[3]; }; "
+        "struct s6 { short a; short b; short c; }; struct s12 { int a; char b[5]; };")
+# nested array kinds: (item type, item struct format, item count)
+NESTED = {'short[2]': ('short', 'h', 2), 'char[3]': ('char', 'c', 3), 'int[3]': ('int', 'i', 3)}
+# struct kinds: fields as (name, offset, type, array length or None)
+STRUCTS = {'struct sp': [('a', 0, 'short', None), ('b', 2, 'char', None)],
+           'struct s3': [('a', 0, 'char', 3)],
+           'struct s6': [('a', 0, 'short', None), ('b', 2, 'short', None), ('c', 4, 'short', None)],
+           'struct s12': [('a', 0, 'int', None), ('b', 4, 'char', 5)]}
+MODES = ['own', 'own', 'ownvar', 'view', 'view', 'sliceview', 'sliceview', 'frombuf']
 HUGE = [2 ** 31, 2 ** 63 - 1, 2 ** 63, 2 ** 64, 2 ** 70, -2 ** 63, -2 ** 63 - 1, -2 ** 70]
 
 
@@ -42,30 +70,50 @@ def child_setup(setup, wd):
     from cffi import FFI
     ffi = FFI()
     ffi.cdef(CDEF)
-    return {'ffi': ffi}
+    import _cffi_backend
+    return {'ffi': ffi, 'bffi': _cffi_backend.FFI()}
+
+
+class MyInt(int):
+    """an int subclass used as index / offset"""
 
 
 class H(object):
     """one history"""
 
-    def __init__(self, ffi, rnd, rep, seed):
+    def __init__(self, ffi, rnd, rep, seed, bffi=None):
         self.ffi, self.rnd, self.rep, self.seed = ffi, rnd, rep, seed
+        self.bffi = bffi
         self.T, self.fmt = rnd.choice(KINDS)
+        self.isptr = self.T.endswith('*')
         self.s = ffi.sizeof(self.T)
         self.n = rnd.choice([0, 1, 2, 3, 5, 8, 12])
-        self.own = rnd.random() < 0.4
+        self.mode = rnd.choice(MODES)
+        self.own = self.mode in ('own', 'ownvar')
         if self.own:
             self.off = 0
-            self.arr = ffi.new(self.tarr(self.n))
+            if self.mode == 'own':
+                self.arr = ffi.new(self.tarr(self.n))
+            else:       # variable-length array type: the length lives in the cdata object
+                self.arr = ffi.new(self.tvar(), self.n)
             self.backing = self.arr
             total = self.n * self.s
         else:
             pre, post = rnd.choice([1, 2, 3]), rnd.choice([1, 2, 3])
             self.off = pre * self.s
             total = (pre + self.n + post) * self.s
-            self.backing = ffi.new('char[]', total)
-            self.arr = ffi.cast(ffi.getctype(ffi.typeof(self.T), '(*)[%d]' % self.n),
-                                self.backing + self.off)[0]
+            if self.mode == 'view':
+                self.backing = ffi.new('char[]', total)
+                self.arr = ffi.cast(ffi.getctype(ffi.typeof(self.T), '(*)[%d]' % self.n),
+                                    self.backing + self.off)[0]
+            elif self.mode == 'sliceview':      # derived view: a slice of a larger owned array
+                self.backing = ffi.new(self.tarr(pre + self.n + post))
+                self.arr = self.backing[pre:pre + self.n]
+            else:                               # from_buffer over the middle of a bytearray
+                self._ba = bytearray(total)
+                self.backing = ffi.from_buffer('char[]', self._ba)
+                self.arr = ffi.from_buffer(
+                    self.tvar(), memoryview(self._ba)[self.off:self.off + self.n * self.s])
         init = bytes(rnd.getrandbits(8) for _ in range(total))
         if total:
             ffi.buffer(self.backing, total)[:] = init
@@ -77,11 +125,20 @@ class H(object):
     def tarr(self, n):
         return self.ffi.getctype(self.ffi.typeof(self.T), '[%d]' % n)
 
+    def tvar(self):
+        return self.ffi.getctype(self.ffi.typeof(self.T), '[]')
+
+    def tptr(self):
+        return self.ffi.getctype(self.ffi.typeof(self.T), '*')
+
+    def addr(self, p):
+        return int(self.ffi.cast('uintptr_t', p))
+
     # --- values -------------------------------------------------------
     def rand_value(self):
         """returns (python value to store, bytes expected)"""
         rnd, T = self.rnd, self.T
-        if self.fmt in ('b', 'B', 'h', 'H', 'i', 'I', 'q', 'Q') and T != 'void *':
+        if self.fmt in ('b', 'B', 'h', 'H', 'i', 'I', 'q', 'Q') and not self.isptr:
             size = self.s
             signed = self.fmt.islower()
             lo, hi = gen.int_range(size, signed)
@@ -96,22 +153,27 @@ class H(object):
         if self.fmt == 'd':
             v = rnd.uniform(-1e9, 1e9)
             return v, struct.pack('<d', v)
-        if T == 'void *':
+        if self.isptr:
             a = rnd.getrandbits(64)
-            return self.ffi.cast('void *', a), struct.pack('<Q', a)
-        if T == 'struct sp':
-            tmp = self.ffi.new('struct sp *')
-            b = bytes(rnd.getrandbits(8) for _ in range(4))
+            return self.ffi.cast(T, a), struct.pack('<Q', a)
+        if T in STRUCTS:
+            tmp = self.ffi.new(T + ' *')
+            b = bytes(rnd.getrandbits(8) for _ in range(self.s))
             self.ffi.buffer(tmp)[:] = b
             self._keep = tmp
             return tmp[0], b
-        if T == 'short[2]':
-            a, b = rnd.randint(-32768, 32767), rnd.randint(-32768, 32767)
-            return [a, b], struct.pack('<hh', a, b)
+        if T in NESTED:
+            it, f, cnt = NESTED[T]
+            if f == 'c':
+                b = bytes(rnd.getrandbits(8) for _ in range(cnt))
+                return (b if rnd.random() < 0.5 else [b[k:k + 1] for k in range(cnt)]), b
+            lo, hi = gen.int_range(struct.calcsize(f), True)
+            vs = [rnd.randint(lo, hi) for _ in range(cnt)]
+            return vs, struct.pack('<%d%s' % (cnt, f), *vs)
 
     def decode(self, b):
         T = self.T
-        if T == 'void *':
+        if self.isptr:
             return ('ptr', struct.unpack('<Q', b)[0])
         if self.fmt:
             v = struct.unpack('<' + self.fmt, b)[0]
@@ -144,43 +206,251 @@ class H(object):
             self.model[:] = real
 
     def desc(self):
-        return '%s[%d]%s' % (self.T, self.n, ' (owned)' if self.own else ' (view)')
+        return '%s[%d] (%s)' % (self.T, self.n, self.mode)
 
     def bad(self, mech, msg):
         self.rep.bad(mech, msg + ' | history seed %d, ops so far: %r' %
                      (self.seed, self.oplog[-6:]), self.seed)
 
-    def expect_index_error(self, fn, what):
+    def expect_index_error(self, fn, what, prefix=''):
         try:
             r = fn()
         except IndexError:
             return True
         except OverflowError as e:
-            self.bad('overflowerror-instead-of-indexerror', '%s: %s raised OverflowError (%s), '
-                     'the statement asks for IndexError' % (self.desc(), what, e))
+            self.bad(prefix + 'overflowerror-instead-of-indexerror', '%s: %s raised OverflowError '
+                     '(%s), the statement asks for IndexError' % (self.desc(), what, e))
             return True
         except Exception as e:
-            self.bad('wrong-exception', '%s: %s raised %s: %s' % (self.desc(), what,
-                                                                   type(e).__name__, e))
+            self.bad(prefix + 'wrong-exception', '%s: %s raised %s: %s' %
+                     (self.desc(), what, type(e).__name__, e))
             return True
-        self.bad('accepted-out-of-range', '%s: %s was accepted (result %r)' %
+        self.bad(prefix + 'accepted-out-of-range', '%s: %s was accepted (result %r)' %
                  (self.desc(), what, r))
         return False
+
+    def not_accepted(self, fn, what, mech):
+        """fn must raise (any exception)"""
+        try:
+            r = fn()
+        except Exception:
+            return True
+        self.bad(mech, '%s: %s was accepted (result %r)' % (self.desc(), what, r))
+        return False
+
+    def ffis(self):
+        """the FFI implementations: cffi.api.FFI (typeoffsetof + rawaddressof) and
+        _cffi_backend.FFI (ffi_obj.c)"""
+        r = [(self.ffi, '')]
+        if self.bffi is not None:
+            r.append((self.bffi, ':ffi_obj'))
+        return r
+
+    def make_cdata_source(self, kind, cnt, raw):
+        """array cdata holding `raw` (cnt items): fixed-length type, variable-length type, or
+        a slice out of a larger array"""
+        ffi, s = self.ffi, self.s
+        if kind == 'cdata':
+            tmp = ffi.new(self.tarr(cnt))
+            if cnt:
+                ffi.buffer(tmp)[:] = raw
+            return tmp
+        if kind == 'cdata_var':
+            tmp = ffi.new(self.tvar(), cnt)
+            if cnt:
+                ffi.buffer(tmp)[:] = raw
+            return tmp
+        tmp = ffi.new(self.tvar(), cnt + 2)
+        if cnt:
+            ffi.buffer(tmp)[s:s + cnt * s] = raw
+        self._keep2 = tmp
+        return tmp[1:1 + cnt]
+
+    # --- derived views --------------------------------------------------
+    def check_view(self, sl, m, e0, tag, prefix):
+        ffi, s = self.ffi, self.s
+        t = ffi.typeof(sl)
+        ln = len(sl) if t.kind == 'array' else None
+        if ln != m or t.item is not ffi.typeof(self.T):
+            self.bad(prefix + 'slice-type', '%s: %s is %r with len %r, expected an array of %d x %s'
+                     % (self.desc(), tag, t, ln, m, self.T))
+            return False
+        a = self.addr(ffi.cast('char *', sl))
+        if a != (self.base + e0 * s) % 2 ** 64:
+            self.bad(prefix + 'slice-address', '%s: %s starts at %#x, expected %#x' %
+                     (self.desc(), tag, a, (self.base + e0 * s) % 2 ** 64))
+            return False
+        return True
+
+    def view_op(self, sl, m, e0, tag):
+        """one random operation on the derived view `sl`, which must behave as an array of
+        length m aliasing the elements e0..e0+m-1 (indexes relative to the array under test;
+        all of them inside the backing store)"""
+        rnd, ffi, s = self.rnd, self.ffi, self.s
+        voff, vbase = self.off + e0 * s, self.base + e0 * s
+        sub = rnd.choice(['index', 'write', 'slice', 'slice', 'assign', 'assign', 'arith'])
+        self.rep.stat('view_' + sub)
+
+        def rix():
+            k = rnd.choice([rnd.randint(-2, m + 2), rnd.randint(-2, m + 2), rnd.randint(0, m), m, -1,
+                            rnd.choice(HUGE)])
+            return MyInt(k) if rnd.random() < 0.08 else k
+        if sub == 'index':
+            k = rix()
+            if 0 <= k < m:
+                try:
+                    got = self.observe(sl[k])
+                except Exception as e:
+                    self.bad('view-inrange-index-rejected', '%s: %s[%d] (view of length %d) raised '
+                             '%s: %s' % (self.desc(), tag, k, m, type(e).__name__, e))
+                else:
+                    exp = self.decode(self.model[voff + k * s: voff + (k + 1) * s])
+                    if got != exp:
+                        self.bad('view-read-value', '%s: %s[%d] = %r, memory holds %r' %
+                                 (self.desc(), tag, k, got, exp))
+            else:
+                self.expect_index_error(lambda: sl[k], '%s[%d] (view of length %d)' % (tag, k, m),
+                                        'view-')
+            return (sub, k)
+        if sub == 'write':
+            k = rix()
+            v, b = self.rand_value()
+            if 0 <= k < m:
+                try:
+                    sl[k] = v
+                except Exception as e:
+                    self.bad('view-inrange-index-rejected', '%s: %s[%d] = v (view of length %d) '
+                             'raised %s: %s' % (self.desc(), tag, k, m, type(e).__name__, e))
+                else:
+                    self.model[voff + k * s: voff + (k + 1) * s] = b
+            else:
+                def f():
+                    sl[k] = v
+                self.expect_index_error(f, '%s[%d] = v (view of length %d)' % (tag, k, m), 'view-')
+            return (sub, k)
+        if sub == 'slice':
+            a, b_ = rix(), rix()
+            if rnd.random() < 0.5:
+                a = rnd.randint(0, m)
+                b_ = rnd.randint(a, m)
+            what = '%s[%d:%d] (view of length %d)' % (tag, a, b_, m)
+            if 0 <= a <= b_ <= m:
+                try:
+                    s2 = sl[a:b_]
+                except Exception as e:
+                    self.bad('view-valid-slice-rejected', '%s: %s raised %s: %s' %
+                             (self.desc(), what, type(e).__name__, e))
+                    return (sub, a, b_)
+                if self.check_view(s2, b_ - a, e0 + a, what, 'view-'):
+                    m2 = b_ - a
+                    self.expect_index_error(lambda: s2[m2], '(%s)[%d]' % (what, m2), 'view-')
+                    self.expect_index_error(lambda: s2[0:m2 + 1], '(%s)[0:%d]' % (what, m2 + 1),
+                                            'view-')
+                    self.expect_index_error(lambda: s2[-1:m2], '(%s)[-1:%d]' % (what, m2), 'view-')
+                    if m2:
+                        k = rnd.randrange(m2)
+                        v, bb = self.rand_value()
+                        s2[k] = v
+                        o = voff + (a + k) * s
+                        self.model[o:o + s] = bb
+                        if self.observe(sl[a + k]) != self.decode(bb):
+                            self.bad('view-slice-not-a-view', '%s: write through (%s)[%d] not seen '
+                                     'in %s[%d]' % (self.desc(), what, k, tag, a + k))
+                self.rep.stat('view_slices_ok')
+            else:
+                self.expect_index_error(lambda: sl[a:b_], what, 'view-')
+                self.rep.stat('view_slices_rejected')
+            return (sub, a, b_)
+        if sub == 'assign':
+            a = rnd.randint(0, m)
+            b_ = rnd.randint(a, m)
+            oob = rnd.random() < 0.25
+            if oob:
+                b_ = m + rnd.randint(1, 2)
+            delta = rnd.choice([0, 0, 0, -1, 1, 2])
+            cnt = max(0, (b_ - a) + delta)
+            vals = [self.rand_value() for _ in range(cnt)]
+            raw = b''.join(b for v, b in vals)
+            kind = rnd.choice(['list', 'cdata', 'cdata_var', 'cdata_slice'])
+            if kind == 'list':
+                src = [v for v, b in vals]
+            else:
+                src = self.make_cdata_source(kind, cnt, raw)
+            what = '%s[%d:%d] = <%s of %d> (view of length %d)' % (tag, a, b_, kind, cnt, m)
+
+            def f():
+                sl[a:b_] = src
+            if oob:
+                self.expect_index_error(f, what, 'view-')
+                self.rep.stat('view_assign_rejected_bounds')
+            elif cnt == b_ - a:
+                try:
+                    f()
+                except Exception as e:
+                    self.bad('view-valid-sliceassign-rejected', '%s: %s raised %s: %s' %
+                             (self.desc(), what, type(e).__name__, e))
+                else:
+                    self.model[voff + a * s: voff + b_ * s] = raw
+                self.rep.stat('view_assign_ok')
+            else:
+                try:
+                    f()
+                except Exception:
+                    real = bytes(ffi.buffer(self.backing, self.total))
+                    self.model[voff + a * s: voff + b_ * s] = real[voff + a * s: voff + b_ * s]
+                else:
+                    self.bad('view-sliceassign-wrong-count-accepted', '%s: %s accepted' %
+                             (self.desc(), what))
+                self.rep.stat('view_assign_wrong_count')
+            return (sub, a, b_, cnt, kind)
+        # arith: pointer arithmetic / addressof relative to the view
+        k = rnd.randint(-3, m + 3)
+        form = rnd.choice(['v+k', 'k+v'])
+        try:
+            q = (sl + k) if form == 'v+k' else (k + sl)
+            d = q - sl
+        except Exception as e:
+            self.bad('view-pointer-arith-raised', '%s: %s with v = %s, k = %d raised %s: %s' %
+                     (self.desc(), form, tag, k, type(e).__name__, e))
+            return (sub, k, form)
+        if self.addr(q) != (vbase + k * s) % 2 ** 64:
+            self.bad('view-pointer-add-address', '%s: (%s)+%d is at %#x, expected %#x' %
+                     (self.desc(), tag, k, self.addr(q), (vbase + k * s) % 2 ** 64))
+        if d != k:
+            self.bad('view-pointer-diff', '%s: ((%s)+%d)-(%s) = %r' % (self.desc(), tag, k, tag, d))
+        for f, suffix in self.ffis():
+            try:
+                a = f.addressof(sl, k)
+            except Exception as e:
+                if 0 <= k <= m:
+                    self.bad('view-addressof-raised' + suffix, '%s: addressof(%s, %d) raised %s: %s'
+                             % (self.desc(), tag, k, type(e).__name__, e))
+                continue
+            if a != q or self.addr(a) != (vbase + k * s) % 2 ** 64:
+                self.bad('view-addressof-value' + suffix, '%s: addressof(%s, %d) = %r, expected %r'
+                         % (self.desc(), tag, k, a, q))
+        return (sub, k, form)
 
     # --- operations ---------------------------------------------------
     def rand_index(self):
         r = self.rnd.random()
         if r < 0.75:
-            return self.rnd.randint(-self.n - 2, self.n + 2)
-        if r < 0.9:
-            return self.rnd.choice(HUGE)
-        return self.rnd.choice([self.n, -1, self.n - 1, 0])
+            i = self.rnd.randint(-self.n - 2, self.n + 2)
+        elif r < 0.9:
+            i = self.rnd.choice(HUGE)
+        else:
+            i = self.rnd.choice([self.n, -1, self.n - 1, 0])
+        if self.rnd.random() < 0.08:
+            self.rep.stat('index_int_subclass')
+            return MyInt(i)
+        return i
 
     def step(self):
         rnd, ffi, n, s, x = self.rnd, self.ffi, self.n, self.s, self.arr
         op = rnd.choice(['read', 'read', 'write', 'write', 'slice', 'slice', 'slicewrite',
                          'sliceassign', 'sliceassign', 'badslice', 'ptrarith', 'ptrindex',
-                         'addressof', 'offsetof', 'ownptr', 'ptrdiff'])
+                         'addressof', 'offsetof', 'ownptr', 'ptrdiff',
+                         'subview', 'subview', 'subview', 'ptrslice', 'ptrslice'])
         key = None
         if op == 'read':
             i = self.rand_index()
@@ -220,6 +490,9 @@ class H(object):
                 self.rep.stat('writes_rejected')
         elif op in ('slice', 'slicewrite'):
             i, j = self.rand_index(), self.rand_index()
+            if rnd.random() < 0.3:
+                i = rnd.randint(0, n)
+                j = rnd.randint(i, n)
             key = (op, i, j)
             if 0 <= i <= j <= n:
                 try:
@@ -278,34 +551,71 @@ class H(object):
             want = (j - i) if valid else rnd.randint(0, 3)
             delta = rnd.choice([0, 0, 0, -1, 1, 2]) if valid else 0
             cnt = max(0, want + delta)
-            vals = [self.rand_value() for _ in range(cnt)]
-            srckind = rnd.choice(['list', 'tuple', 'gen', 'cdata', 'bytes'])
+            srckind = rnd.choice(['list', 'tuple', 'gen', 'cdata', 'cdata_var', 'cdata_slice', 'self',
+                                  'self', 'bytes', 'baditem', 'raisegen'])
+            if self.T == 'char' and rnd.random() < 0.25:
+                srckind = 'bytes'
             if srckind == 'bytes' and self.T != 'char':
                 srckind = 'list'     # the bytes/bytearray fast path exists for 'char' only
+            if srckind == 'self' and cnt > n:
+                srckind = 'cdata_var'
+            mustfail = False
+            if srckind in ('baditem', 'raisegen'):
+                if not valid or (srckind == 'baditem' and j == i):
+                    srckind = 'tuple'
+                else:
+                    cnt = j - i         # the right count, but the source fails on the way
+                    mustfail = True
+            vals = [self.rand_value() for _ in range(cnt)]
+            raw = b''.join(b for v, b in vals)
             if srckind == 'bytes':
-                raw = b''.join(b for v, b in vals)
                 src = raw if rnd.random() < 0.5 else bytearray(raw)
                 srckind = type(src).__name__
             if srckind in ('bytes', 'bytearray'):
                 pass
-            elif srckind == 'cdata':
-                tmp = ffi.new(self.tarr(cnt))
-                if cnt:
-                    ffi.buffer(tmp)[:] = b''.join(b for v, b in vals)
-                src = tmp
+            elif srckind in ('cdata', 'cdata_var', 'cdata_slice'):
+                src = self.make_cdata_source(srckind, cnt, raw)
+            elif srckind == 'self':
+                # a (possibly overlapping) slice of the array itself
+                k = rnd.randint(0, n - cnt)
+                src = x[k:k + cnt]
+                raw = bytes(self.model[self.off + k * s: self.off + (k + cnt) * s])
+                if valid and cnt and k < j and i < k + cnt:
+                    self.rep.stat('sliceassign_overlapping_self')
             elif srckind == 'list':
                 src = [v for v, b in vals]
             elif srckind == 'tuple':
                 src = tuple(v for v, b in vals)
+            elif srckind == 'baditem':
+                src = [v for v, b in vals]
+                src[rnd.randrange(cnt)] = object()
+            elif srckind == 'raisegen':
+                def g(k=rnd.randint(0, cnt)):
+                    for v, b in vals[:k]:
+                        yield v
+                    raise RuntimeError('c16: iterator failure')
+                src = g()
             else:
                 src = (v for v, b in vals)
             key = (op, i, j, cnt, srckind)
+            self.rep.stat('sliceassign_src_' + srckind)
 
             def f():
                 x[i:j] = src
             if not valid:
                 self.expect_index_error(f, 'x[%d:%d] = <%d values>' % (i, j, cnt))
                 self.rep.stat('sliceassign_rejected_bounds')
+            elif mustfail:
+                try:
+                    f()
+                except Exception:
+                    real = bytes(ffi.buffer(self.backing, self.total))
+                    self.model[self.off + i * s: self.off + j * s] = \
+                        real[self.off + i * s: self.off + j * s]
+                else:
+                    self.bad('sliceassign-failing-source-accepted', '%s: x[%d:%d] = <%s> raised '
+                             'nothing' % (self.desc(), i, j, srckind))
+                self.rep.stat('sliceassign_failing_source')
             elif cnt == j - i:
                 try:
                     f()
@@ -313,7 +623,7 @@ class H(object):
                     self.bad('valid-sliceassign-rejected', '%s: x[%d:%d] = <%s of %d> raised %s: '
                              '%s' % (self.desc(), i, j, srckind, cnt, type(e).__name__, e))
                 else:
-                    self.model[self.off + i * s: self.off + j * s] = b''.join(b for v, b in vals)
+                    self.model[self.off + i * s: self.off + j * s] = raw
                 self.rep.stat('sliceassign_ok')
             else:
                 try:
@@ -328,27 +638,137 @@ class H(object):
                     self.bad('sliceassign-wrong-count-accepted', '%s: x[%d:%d] = <%s of %d '
                              'values> accepted' % (self.desc(), i, j, srckind, cnt))
                 self.rep.stat('sliceassign_wrong_count')
+        elif op == 'subview':
+            # a derived view of the array under test; every bound is relative to the view
+            i = rnd.randint(0, n)
+            j = rnd.randint(i, n)
+            m = j - i
+            how = rnd.choice(['slice', 'slice', 'ptrslice', 'slice_of_slice'])
+            try:
+                if how == 'slice':
+                    sl = x[i:j]
+                    tag = 'x[%d:%d]' % (i, j)
+                elif how == 'ptrslice':
+                    d = rnd.randint(-2, 2)
+                    sl = (x + (i - d))[d:d + m]
+                    tag = '(x+%d)[%d:%d]' % (i - d, d, d + m)
+                else:
+                    a = rnd.randint(0, i)
+                    b = rnd.randint(j, n)
+                    sl = x[a:b][i - a:j - a]
+                    tag = 'x[%d:%d][%d:%d]' % (a, b, i - a, j - a)
+            except Exception as e:
+                self.bad('valid-slice-rejected', '%s: building the view %s raised %s: %s' %
+                         (self.desc(), how, type(e).__name__, e))
+                return (op, how, i, j), op
+            self.rep.stat('subview_' + how)
+            sub = None
+            if self.check_view(sl, m, i, tag, 'view-'):
+                sub = self.view_op(sl, m, i, tag)
+            key = (op, how, i, j, sub)
+        elif op == 'ptrslice':
+            # slices of a plain pointer: unbounded (C semantics), exercised inside the backing store
+            i0 = rnd.randint(0, n)
+            p = x + i0
+            lo = -(self.off // s) - i0
+            hi = lo + self.total // s
+            which = rnd.choice(['ok', 'ok', 'ok', 'ok', 'reversed', 'step', 'missing'])
+            a = rnd.randint(lo, hi)
+            b = rnd.randint(a, hi)
+            key = (op, which, i0, a, b)
+            self.rep.stat('ptrslice_' + which)
+            if which == 'ok':
+                tag = '(x+%d)[%d:%d]' % (i0, a, b)
+                try:
+                    sl = p[a:b]
+                except Exception as e:
+                    self.bad('pointer-slice-rejected', '%s: %s raised %s: %s' %
+                             (self.desc(), tag, type(e).__name__, e))
+                    return key, op
+                if a < 0:
+                    self.rep.stat('ptrslice_negative_start')
+                if self.check_view(sl, b - a, i0 + a, tag, 'pointer-'):
+                    key = key + (self.view_op(sl, b - a, i0 + a, tag),)
+            elif which == 'reversed':
+                a2 = b + rnd.randint(1, 3)
+                self.not_accepted(lambda: p[a2:b], '(x+%d)[%d:%d] (start > stop)' % (i0, a2, b),
+                                  'pointer-slice-invalid-accepted')
+            elif which == 'step':
+                st_ = rnd.choice([1, 2, -1])
+                self.not_accepted(lambda: p[a:b:st_], '(x+%d)[%d:%d:%d]' % (i0, a, b, st_),
+                                  'pointer-slice-invalid-accepted')
+            else:
+                w = rnd.choice(['nostart', 'nostop', 'none'])
+                self.not_accepted((lambda: p[:b]) if w == 'nostart' else (lambda: p[a:])
+                                  if w == 'nostop' else (lambda: p[:]),
+                                  '(x+%d)[..] with %s (a=%d, b=%d)' % (i0, w, a, b),
+                                  'pointer-slice-invalid-accepted')
         elif op in ('ptrarith', 'ptrindex', 'ptrdiff'):
             p = x + 0
             lim = (2 ** 62) // max(s, 1)
             i = rnd.choice([rnd.randint(-n - 3, n + 3), rnd.randint(-lim, lim), 0, n])
-            key = (op, i)
-            q = p + i
+            form = rnd.choice(['p+i', 'i+p', 'x+i', 'i+x', 'p-(-i)'])
+            iv = MyInt(i) if rnd.random() < 0.08 else i
+            key = (op, i, form)
+            self.rep.stat('ptradd_' + form)
+            try:
+                if form == 'p+i':
+                    q = p + iv
+                elif form == 'i+p':
+                    q = iv + p
+                elif form == 'x+i':
+                    q = x + iv
+                elif form == 'i+x':
+                    q = iv + x
+                else:
+                    q = p - (-iv)
+                d1, d2, d3 = q - p, p - q, q - x       # d3: pointer minus array
+                back = q - iv
+            except Exception as e:
+                self.bad('pointer-arith-raised', '%s: %s / q-p / p-q / q-x / q-i with i = %d raised '
+                         '%s: %s' % (self.desc(), form, i, type(e).__name__, e))
+                return key, op
+            if ffi.typeof(q) is not ffi.typeof(self.tptr()):
+                self.bad('pointer-add-type', '%s: %s is a %r' % (self.desc(), form, ffi.typeof(q)))
             a = int(ffi.cast('uintptr_t', q))
             if a != (self.base + i * s) % 2 ** 64:
-                self.bad('pointer-add-address', '%s: (p+%d) is at %#x, expected %#x' %
-                         (self.desc(), i, a, (self.base + i * s) % 2 ** 64))
-            if (q - p) != i or (p - q) != -i:
-                self.bad('pointer-diff', '%s: (p+%d)-p = %r' % (self.desc(), i, q - p))
-            if int(ffi.cast('uintptr_t', q - i)) != self.base % 2 ** 64:
+                self.bad('pointer-add-address', '%s: (%s, i = %d) is at %#x, expected %#x' %
+                         (self.desc(), form, i, a, (self.base + i * s) % 2 ** 64))
+            if d1 != i or d2 != -i:
+                self.bad('pointer-diff', '%s: (p+%d)-p = %r, p-(p+%d) = %r' %
+                         (self.desc(), i, d1, i, d2))
+            if d3 != i:
+                self.bad('pointer-minus-array', '%s: (p+%d)-x = %r' % (self.desc(), i, d3))
+            if int(ffi.cast('uintptr_t', back)) != self.base % 2 ** 64:
                 self.bad('pointer-sub', '%s: (p+%d)-%d != p' % (self.desc(), i, i))
+            if op == 'ptrdiff':
+                # byte-sized items: char* (itemsize 1) and void* (gcc extension)
+                ib = rnd.choice([rnd.randint(-40, 40), rnd.randint(-2 ** 40, 2 ** 40)])
+                for ct in ('char *', 'void *'):
+                    vp = ffi.cast(ct, p)
+                    try:
+                        vq = (vp + ib) if rnd.random() < 0.5 else (ib + vp)
+                        dv = vq - vp
+                    except Exception as e:
+                        self.bad('bytepointer-arith-raised', '%s: <%s>+%d raised %s: %s' %
+                                 (self.desc(), ct, ib, type(e).__name__, e))
+                        continue
+                    if dv != ib:
+                        self.bad('bytepointer-diff', '%s: (<%s>+%d) - <%s> = %r' %
+                                 (self.desc(), ct, ib, ct, dv))
+                    if ct == 'char *' and self.addr(vq) != (self.base + ib) % 2 ** 64:
+                        self.bad('bytepointer-add-address', '%s: <char *>+%d is at %#x, expected '
+                                 '%#x' % (self.desc(), ib, self.addr(vq), (self.base + ib) % 2 ** 64))
+                self.rep.stat('byte_pointer_ops')
             if op == 'ptrindex' and n:
                 j = rnd.randint(-3, n + 3)
                 tgt = i + j
-                aj = int(ffi.cast('uintptr_t', ffi.addressof(q, j)))
-                if aj != (self.base + tgt * s) % 2 ** 64:
-                    self.bad('pointer-index-address', '%s: &(p+%d)[%d] at %#x, expected %#x' %
-                             (self.desc(), i, j, aj, (self.base + tgt * s) % 2 ** 64))
+                for f, suffix in self.ffis():
+                    aj = int(ffi.cast('uintptr_t', f.addressof(q, j)))
+                    if aj != (self.base + tgt * s) % 2 ** 64:
+                        self.bad('pointer-index-address' + suffix, '%s: &(p+%d)[%d] at %#x, '
+                                 'expected %#x' % (self.desc(), i, j, aj,
+                                                   (self.base + tgt * s) % 2 ** 64))
                 lo = -(self.off // s) if s else 0
                 hi = lo + self.total // s if s else 0
                 if lo <= tgt < hi:
@@ -368,16 +788,38 @@ class H(object):
         elif op == 'addressof':
             i = rnd.randint(0, n) if rnd.random() < 0.8 else rnd.randint(-3, n + 3)
             key = (op, i)
-            try:
-                a = ffi.addressof(x, i)
-            except Exception as e:
-                if 0 <= i <= n:
-                    self.bad('addressof-raised', '%s: addressof(x, %d) raised %s' %
-                             (self.desc(), i, type(e).__name__))
-            else:
+            for f, suffix in self.ffis():
+                try:
+                    a = f.addressof(x, i)
+                except Exception as e:
+                    if 0 <= i <= n:
+                        self.bad('addressof-raised' + suffix, '%s: addressof(x, %d) raised %s: %s' %
+                                 (self.desc(), i, type(e).__name__, e))
+                    continue
                 if a != x + i or int(ffi.cast('uintptr_t', a)) != (self.base + i * s) % 2 ** 64:
-                    self.bad('addressof-value', '%s: addressof(x, %d) = %r, x+%d = %r' %
+                    self.bad('addressof-value' + suffix, '%s: addressof(x, %d) = %r, x+%d = %r' %
                              (self.desc(), i, a, i, x + i))
+                if ffi.typeof(a) is not ffi.typeof(self.tptr()):
+                    self.bad('addressof-type' + suffix, '%s: addressof(x, %d) is a %r' %
+                             (self.desc(), i, ffi.typeof(a)))
+            path = self.rand_path()
+            if path is not None:
+                # the C model for &x[i]<path>: x + i, plus the offset of <path> inside one item
+                args, inner, inrange = path
+                key = (op, i) + tuple(args)
+                for f, suffix in self.ffis():
+                    try:
+                        a = f.addressof(x, i, *args)
+                    except Exception as e:
+                        if 0 <= i <= n and inrange:
+                            self.bad('addressof-raised' + suffix, '%s: addressof(x, %d, %r) raised '
+                                     '%s: %s' % (self.desc(), i, args, type(e).__name__, e))
+                        continue
+                    if self.addr(a) != (self.base + i * s + inner) % 2 ** 64:
+                        self.bad('addressof-nested-value' + suffix, '%s: addressof(x, %d, %r) is at '
+                                 '%#x, expected %#x' % (self.desc(), i, args, self.addr(a),
+                                                        (self.base + i * s + inner) % 2 ** 64))
+                self.rep.stat('addressof_nested')
             self.rep.stat('addressof')
         elif op == 'offsetof':
             lim = (2 ** 63) // max(s, 1)
@@ -385,41 +827,78 @@ class H(object):
                             lim + rnd.randint(-2, 2), -lim + rnd.randint(-2, 2),
                             rnd.randint(-lim, lim), 2 ** 62, -2 ** 62, 2 ** 63 - 1, -2 ** 63])
             key = (op, i)
-            for spec in (ffi.getctype(ffi.typeof(self.T), '[]'),
-                         ffi.typeof(ffi.getctype(ffi.typeof(self.T), '[]')),
-                         ffi.getctype(ffi.typeof(self.T), '[%d]' % max(n, 1)),
-                         ffi.getctype(ffi.typeof(self.T), '*')):
+            specs = [(ffi, '', ffi.getctype(ffi.typeof(self.T), '[]')),
+                     (ffi, '', ffi.typeof(ffi.getctype(ffi.typeof(self.T), '[]'))),
+                     (ffi, '', ffi.getctype(ffi.typeof(self.T), '[%d]' % max(n, 1))),
+                     (ffi, '', ffi.getctype(ffi.typeof(self.T), '*'))]
+            if self.bffi is not None:
+                specs += [(self.bffi, ':ffi_obj', ffi.typeof(self.tvar())),
+                          (self.bffi, ':ffi_obj', ffi.typeof(self.tarr(max(n, 1)))),
+                          (self.bffi, ':ffi_obj', ffi.typeof(self.tptr()))]
+            for f, suffix, spec in specs:
                 try:
-                    o = ffi.offsetof(spec, i)
+                    o = f.offsetof(spec, i)
                 except OverflowError:
                     if -2 ** 63 <= i * s < 2 ** 63:
-                        self.bad('offsetof-raised', 'offsetof(%r, %d) raised OverflowError although '
-                                 'the offset %d fits' % (spec, i, i * s))
+                        self.bad('offsetof-raised' + suffix, 'offsetof(%r, %d) raised OverflowError '
+                                 'although the offset %d fits' % (spec, i, i * s))
                     self.rep.stat('offsetof_overflow_rejected')
                     continue
                 except Exception as e:
                     if -2 ** 63 <= i < 2 ** 63:     # an index that is not even a ssize_t may
-                        self.bad('offsetof-raised', 'offsetof(%r, %d) raised %s' %   # raise anything
+                        self.bad('offsetof-raised' + suffix, 'offsetof(%r, %d) raised %s' %  # raise anything
                                  (spec, i, type(e).__name__))
                     continue
                 if o != i * s:
-                    self.bad('offsetof-value', 'offsetof(%r, %d) = %d, expected %d' %
+                    self.bad('offsetof-value' + suffix, 'offsetof(%r, %d) = %d, expected %d' %
                              (spec, i, o, i * s))
+            path = self.rand_path() if abs(i) <= 10 ** 6 else None
+            if path is not None:
+                args, inner, inrange = path
+                key = (op, i) + tuple(args)
+                for f, suffix, spec in specs:
+                    try:
+                        o = f.offsetof(spec, i, *args)
+                    except Exception as e:
+                        if inrange:
+                            self.bad('offsetof-raised' + suffix, 'offsetof(%r, %d, %r) raised %s: %s'
+                                     % (spec, i, args, type(e).__name__, e))
+                        continue
+                    if o != i * s + inner:
+                        self.bad('offsetof-nested-value' + suffix, 'offsetof(%r, %d, %r) = %d, '
+                                 'expected %d' % (spec, i, args, o, i * s + inner))
+                self.rep.stat('offsetof_nested')
             self.rep.stat('offsetof')
         elif op == 'ownptr':
-            if self.T == 'short[2]':
-                q = ffi.new('short(*)[2]')
+            how = rnd.choice(['new', 'new', 'new_allocator', 'ffi_obj.new'])
+            if how == 'ffi_obj.new' and self.bffi is None:
+                how = 'new'
+            if how == 'new':
+                q = ffi.new(self.tptr())
+            elif how == 'new_allocator':
+                q = ffi.new_allocator(should_clear_after_alloc=False)(self.tptr())
             else:
-                q = ffi.new(self.T + ' *')
-            i = rnd.choice([0, 1, -1, 2, rnd.choice(HUGE)])
-            key = (op, i)
+                q = self.bffi.new(ffi.typeof(self.tptr()))
+            self.rep.stat('ownptr_' + how)
+            i = rnd.choice([0, 0, 1, -1, 2, rnd.choice(HUGE)])
+            if rnd.random() < 0.08:
+                i = MyInt(i)
+            key = (op, i, how)
             if i == 0:
-                q[0]
                 v, b = self.rand_value()
-                q[0] = v
+                try:
+                    q[i] = v
+                    got = self.observe(q[i])
+                except Exception as e:
+                    self.bad('ownptr-index0-rejected', '%s * (%s): q[0] raised %s: %s' %
+                             (self.T, how, type(e).__name__, e))
+                    return key, op
                 if bytes(ffi.buffer(q)) != b:
                     self.bad('ownptr-write', '%s *: q[0] = v stored %s, expected %s' %
                              (self.T, bytes(ffi.buffer(q)).hex(), b.hex()))
+                if got != self.decode(b):
+                    self.bad('ownptr-read', '%s *: q[0] reads %r after storing %r' %
+                             (self.T, got, self.decode(b)))
             else:
                 self.expect_index_error(lambda: q[i], 'owning pointer q[%d]' % i)
 
@@ -430,6 +909,22 @@ class H(object):
             self.rep.stat('owning_pointer_ops')
         return key, op
 
+    def rand_path(self):
+        """for nested element kinds: (extra addressof/offsetof arguments after the array index,
+        expected offset inside one element, all indexes inside their arrays)"""
+        rnd, T = self.rnd, self.T
+        if T in NESTED:
+            it, f, cnt = NESTED[T]
+            k = rnd.choice([rnd.randint(0, cnt), rnd.randint(-2, cnt + 2)])
+            return [k], k * struct.calcsize(f), 0 <= k <= cnt
+        if T in STRUCTS:
+            name, ofs, ft, alen = rnd.choice(STRUCTS[T])
+            if alen is None or rnd.random() < 0.3:
+                return [name], ofs, True
+            k = rnd.choice([rnd.randint(0, alen), rnd.randint(-2, alen + 2)])
+            return [name, k], ofs + k * self.ffi.sizeof(ft), 0 <= k <= alen
+        return None
+
 
 def child_case(st, case):
     import random
@@ -437,8 +932,9 @@ def child_case(st, case):
     rep = core.ChildRep()
     for seed in case['seeds']:
         rnd = random.Random(seed)
-        h = H(ffi, rnd, rep, seed)
+        h = H(ffi, rnd, rep, seed, st.get('bffi'))
         rep.stat('histories')
+        rep.stat('mode_' + h.mode)
         rep.stat('kind_' + h.T.replace(' ', '_'))
         for _ in range(case['ops']):
             try:
@@ -449,7 +945,7 @@ def child_case(st, case):
                 break
             h.oplog.append(key)
             h.check_mem(repr(key))
-            rep.case((h.T, h.n, h.own, key), nontrivial=op != 'read',
+            rep.case((h.T, h.n, h.mode, key), nontrivial=op != 'read',
                      sample={'array': h.desc(), 'op': repr(key)})
     return rep.result()
 
